@@ -71,6 +71,7 @@ func ZZ_C28_kernel() {
 	node.networkId = zzId(0xEE) // not mainnet
 	// the last recorded consensus operation
 	lastTx, lastTs := zzH(), vr.U64()
+	vr.Assume(lastTs < 1<<62)
 	last := &common.Snapshot{Version: common.SnapshotVersionCommonEncoding, NodeId: zzH(), RoundNumber: 1, Timestamp: lastTs,
 		References: &common.RoundLink{Self: zzH(), External: zzH()}, Transactions: []crypto.Hash{lastTx}}
 	vr.Assert(store.ZZPutConsensusSnapshot(last, 7) == nil, "setup-last-consensus")
